@@ -38,4 +38,5 @@ def main():
     sys.exit(ctx.finish())
 
 
-main()
+if __name__ == "__main__":  # (spawned dask worker processes re-import this module as __mp_main__)
+    main()
